@@ -15,6 +15,7 @@ def main(tier, seed):
     bins = [("dev", vlib.build_harness("dev")), ("release", vlib.build_harness("release"))]
     progs = scenarios.fiber_scenarios(rng, 1500 if tier == "quick" else 25000, nfib=3)
     profcheck.run_scenarios(rep, "fibers", progs, bins, PROP)
+    profcheck.run_scenarios(rep, "switchcontexts", scenarios.fiber_switch_context_scenarios(), bins, PROP)
     rep.coverage["exhaustive"] = False
     rep.sample({"kind": "fiber scenario", "source": __import__("yprog").program_src(progs[-1][1])})
     rep.coverage["rule"] = ("every one-fiber program with a body of <= 2 actions (10 action kinds) under two call schedules, plus seeded "
